@@ -83,6 +83,10 @@ type gop struct {
 	sc   []chunk
 	m, e int
 	pos  int
+	// class eq-selfalias: Write(b.Bytes()[skip:]) - the argument IS the buffer's own unread window; p is filled in
+	// by the runner with a copy of those bytes taken before the call (that is what the Coq term carries)
+	alias bool
+	skip  int
 }
 
 func (o *gop) coq() string {
@@ -140,6 +144,9 @@ func (o *gop) coq() string {
 func (o *gop) String() string {
 	switch o.k {
 	case kWrite, kWriteString:
+		if o.alias {
+			return fmt.Sprintf("Write(b.Bytes()[%d:]) (the argument aliases the buffer's own unread bytes, which were %v)", o.skip, o.p)
+		}
 		return fmt.Sprintf("%s(%v)", o.k, o.p)
 	case kWriteByte:
 		return fmt.Sprintf("WriteByte(%d)", o.c)
@@ -390,6 +397,15 @@ func apply(b bufAPI, o *gop) (st int64, data []int64) {
 	data = []int64{}
 	switch o.k {
 	case kWrite:
+		if o.alias { // no copy: the callee sees its own storage as the argument
+			own := b.Bytes()
+			k := o.skip
+			if k > len(own) {
+				k = len(own)
+			}
+			n, err := b.Write(own[k:])
+			return errStatus(err), []int64{int64(n)}
+		}
 		n, err := b.Write(append([]byte{}, o.p...))
 		return errStatus(err), []int64{int64(n)}
 	case kWriteString:
